@@ -7,6 +7,11 @@ engine file, missing weather directory; reset; Config.get(); proxy read; assignm
 in `weather`, in `emissions`) up to the depth bound, every history replayed from a clean sandbox on
 the real Config / ConfigProxy and compared step by step and by a full observation with a
 reference machine Unconfigured | Configured(expected effective values); (2) a breadth-first
+exploration, deduplicated by (reference-machine state, implementation discriminators, last event), over
+the 51-event routes alphabet = the full alphabet below plus, for every load kind that does not fail
+while reading the file, the two direct routes Config(**data) and Config.model_validate(data) with the
+complete data of that kind (valid and invalid), so that every way of creating a configuration is
+attempted in the unconfigured and in every configured state; (3, thorough) a breadth-first
 exploration over the 23-event full alphabet (adds malformed TOML, wrong type at top level, explicit
 search path that hides the default performance model, assignment through Config.get(), and one valid
 load for each remaining documented way of supplying settings: explicit search path as keyword
@@ -50,9 +55,9 @@ ASSUMPTIONS = [
     'successors of a violating history are not expanded',
 ]
 BOUNDS = {
-    #            bfs alphabet, bfs depth, tail k, [(enumeration alphabet, enumeration depth), ...]
-    'quick': ('full', 8, 2, [('core', 4)]),
-    'thorough': ('full', 8, 2, [('core', 5), ('full', 4)]),
+    #            [(bfs alphabet, bfs depth, tail k), ...], [(enumeration alphabet, enumeration depth), ...]
+    'quick': ([('routes', 8, 1)], [('core', 4)]),
+    'thorough': ([('routes', 8, 1), ('full', 8, 2)], [('core', 5), ('full', 4)]),
 }
 
 _DRV = None
@@ -162,10 +167,26 @@ def enumerate_all(args, depth, seed):
 def run(tier, seed):
     from vf.ref import c18_config_model as cm
 
-    balpha, bdepth, tail, enums = BOUNDS[tier]
-    a = hist.explore(DRIVER, (balpha, tail), bdepth, dedup=True, seed=seed, label='dedup')
-    for v in a['violations']:
-        v['order'] = _rank(v['case']['history'], cm.ALPHABETS[balpha]) + (0 if v.get('confirmed', True) else _UNCONFIRMED)
+    bfss, enums = BOUNDS[tier]
+    a = {'states': 0, 'transitions': 0, 'traces': 0, 'max_depth': 0, 'frontier_exhausted': True, 'capped': False,
+         'outcomes': Counter(), 'violations': [], 'samples': []}  # fmt: skip
+    bparts = []
+    for balpha, bdepth, tail in bfss:
+        x = hist.explore(DRIVER, (balpha, tail), bdepth, dedup=True, seed=seed, label=f'dedup:{balpha}')
+        for v in x['violations']:
+            v['order'] = _rank(v['case']['history'], cm.ALPHABETS[balpha]) + (0 if v.get('confirmed', True) else _UNCONFIRMED)
+        for k in ('states', 'transitions', 'traces'):
+            a[k] += x[k]
+        a['max_depth'] = max(a['max_depth'], x['max_depth'])
+        a['frontier_exhausted'] = a['frontier_exhausted'] and x['frontier_exhausted']
+        a['capped'] = a['capped'] or x['capped']
+        a['outcomes'].update(x['outcomes'])
+        a['violations'] += x['violations']
+        a['samples'] += x['samples'][:2]
+        bparts.append({'alphabet': balpha, 'alphabet_size': len(cm.ALPHABETS[balpha]), 'depth_bound': bdepth,
+                       'tail_events': tail, 'states': x['states'], 'transitions': x['transitions'],
+                       'max_depth': x['max_depth'], 'frontier_exhausted': x['frontier_exhausted']})  # fmt: skip
+    bdepth = max(d for _, d, _ in bfss)
     artifacts = sum(n for k, n in a['outcomes'].items() if k.startswith('sandbox-artifact:'))
     artifact_sample = None
     violations = list(a['violations'])
@@ -209,8 +230,7 @@ def run(tier, seed):
         'max_depth': a['max_depth'],
         'depth_bound': bdepth,
         'frontier_exhausted': a['frontier_exhausted'],
-        'dedup_tail_events': tail,
-        'dedup_alphabet_size': len(cm.ALPHABETS[balpha]),
+        'deduplicated': bparts,
         'undeduplicated': parts,
         'undeduplicated_depth': max(d for _, d in enums),
         'undeduplicated_histories': n_hist,
